@@ -1,7 +1,7 @@
 """C01 - a string is typed exactly as the configured templates say, else stays untyped"""
 from ..rules import exc, config, pathops, mutation, identity, extrapolate
 
-DECIDES = ("totality of Sid(<str>) (R-EXC, nothing may be raised); first match in configuration order and forced 'type:' prefix (R-FIRST: resolver dispatch, uri split, load sequence of sid_conf_load, resolva's ordered loop); one placeholder per '/'-segment, none accepting '/' (R-SEGSHAPE on the folded templates); a string is only typed when its fields format back to it (R-CANON); the stored string is the input remainder and the (type, fields) pair comes from one resolver call (R-TRIPLE); untyped <=> no fields <=> falsy, length 0 (R-IDENT, __len__ / no __bool__). Also: the extrapolated table every string is typed against has one well-named type per level (R-EXTRAPOLATE, R-SEL); no cache-owned value is mutated (R-MUT, also through in-place operators and functions handing a cached result on).")
+DECIDES = ("totality of Sid(<str>) (R-EXC, nothing may be raised); first match in configuration order and forced 'type:' prefix (R-FIRST: resolver dispatch, uri split, load sequence of sid_conf_load, resolva's ordered loop); one placeholder per '/'-segment, none accepting '/' (R-SEGSHAPE on the folded templates); a string is only typed when its fields format back to it (R-CANON); the stored string is the input remainder and the (type, fields) pair comes from one resolver call (R-TRIPLE); untyped <=> no fields <=> falsy, length 0 (R-IDENT, __len__ / no __bool__). Also: the extrapolated table every string is typed against has one well-named type per level (R-EXTRAPOLATE, R-SEL); no cache-owned value is mutated (R-MUT, also through in-place operators and functions handing a cached result on). Configuration: no key_patterns entry is consumed by an earlier group before it can apply (R-DEADPATTERN); no sid template is contained, segment by segment, in an earlier one (R-DEADTYPE).")
 DOES_NOT_DECIDE = "which template accepts a given string (regular-expression evaluation); the exact string kept for a failing 'type:' prefix"
 
 
@@ -17,4 +17,6 @@ def rules(ctx, tier):
         lambda: mutation.rule_mut(ctx),
         lambda: extrapolate.rule_extrapolate(ctx),
         lambda: extrapolate.rule_sel(ctx),
+        lambda: config.rule_deadpattern(ctx),
+        lambda: config.rule_deadtype(ctx),
     ]
